@@ -44,7 +44,8 @@ CONSTANTS
     PatSets,     \* pattern arguments explored (sets of 0..NP)
     MaxLines,    \* longest content
     CBudSet,     \* content budgets explored (0 = filter not registered); Inf = no limit in practice
-    PathSet      \* "host" | "archive" | "cleaner" | "helper"
+    PathSet      \* "host" | "archive" | "cleaner" | "helper" | "serialized" (content stored in a serialized
+                 \* archive - meta_data/ + data/ - and loaded back: the analysis-side selection on load)
 
 VARIABLES
     g,           \* graph parameters [p2f, q2, k]
@@ -184,7 +185,11 @@ TableIsUnion     == \A c \in DS : Judged(c, g) => Dom(Walk(c)) = eff[c]
 -----------------------------------------------------------------------------
 (* CONTENT *)
 LineClasses == [blank : {TRUE}, has : {{}}] \cup [blank : {FALSE}, has : SUBSET Pat]
-Budgeted(p) == p \in {"archive", "cleaner"}
+(* A multi-output spec (glob_file, foreach_collect ...) yields a LIST of contents; each file of the list is a content of  *)
+(* its own, selected with its own budgets under the semantics of the path it came through (MultiOf).           *)
+MultiOf(p) == CASE p = "archive-multi" -> "archive" [] p = "serialized-multi" -> "serialized"
+                [] p = "host-multi" -> "host" [] OTHER -> p
+Budgeted(p) == MultiOf(p) \in {"archive", "cleaner", "serialized"}
 KeepsBlank(p) == p = "cleaner"
 
 InitContent ==
@@ -203,7 +208,7 @@ InitContent ==
 (* spec_factory.py:222-225 / 398-401: a filterable spec without filters is not collected on a host *)
 Start ==
     /\ cphase = "start"
-    /\ IF path = "host" /\ Dom(allow0) = {}
+    /\ IF MultiOf(path) = "host" /\ Dom(allow0) = {}
          THEN cphase' = "done" /\ collected' = FALSE
          ELSE cphase' = "run" /\ collected' = TRUE
     /\ UNCHANGED <<hvars, lines, allow0, path, rem, idx, out>>
@@ -214,7 +219,7 @@ KeepLine ==
     /\ idx' = idx - 1
     /\ LET ln == lines[idx]
            m  == {p \in Dom(rem) : p \in ln.has}
-       IN IF Dom(allow0) = {} /\ path \in {"helper", "archive"}
+       IN IF Dom(allow0) = {} /\ MultiOf(path) \in {"helper", "archive", "serialized"}
             THEN out' = <<idx>> \o out /\ rem' = rem                     \* no filters: everything passes
             ELSE IF ln.blank
             THEN /\ out' = IF KeepsBlank(path) THEN <<idx>> \o out ELSE out
@@ -257,6 +262,6 @@ Subsequence                == CDone => SubsequenceOf(lines, out)
 KeptLinesMatch             == (CDone /\ HasFilters) => KeptLinesMatchOf(lines, allow0, out)
 LastMatchKept              == (CDone /\ HasFilters) => LastMatchKeptOf(lines, allow0, out)
 DroppedOnlyWhenBudgetSpent == (CDone /\ HasFilters) => DroppedOnlyWhenBudgetSpentOf(lines, allow0, out)
-NoFilterNoHostCollection   == (cphase = "done" /\ path = "host" /\ ~HasFilters) => ~collected
+NoFilterNoHostCollection   == (cphase = "done" /\ MultiOf(path) = "host" /\ ~HasFilters) => ~collected
 
 =============================================================================
